@@ -191,7 +191,7 @@ class SAMIReader(BaseReader):
         captions = CaptionList(layout_info=parent_layout)
         milliseconds = 0
 
-        for p in sami_soup.select(f'p[lang|={language}]'):
+        for p in sami_soup.select(f'p[lang="{language}"]'):
             start_str = p.parent.get('start')
             if not start_str:
                 raise CaptionReadTimingError(
@@ -672,6 +672,9 @@ class SAMIParser(HTMLParser):
 
             # if no language detected, set it as the default
             lang = lang or DEFAULT_LANGUAGE_CODE
+            # the paragraph carries exactly the language it was assigned to
+            attrs = [(attr, value) for attr, value in attrs
+                     if attr.lower() != 'lang']
             attrs.append(('lang', lang))
             if lang not in self.langs:
                 self.langs.append(lang)
